@@ -1,7 +1,42 @@
-"""C18 Channel identities never collide (duplicate-create part; id generation part in idsx)."""
-import stages
+"""C18 Channel identities never collide."""
+import stages, vlib
+
 
 def run(ctx):
-    ctx.rule = ("duplicate incoming New requests (network and transport path) at every status of the original channel on a REAL manager: existing channel bytes unchanged, reply not accepted "
-                "(C18.dupCreate judged by TLC); non-trivial = New request addressed to an existing channel")
-    stages.mgr_family(ctx, ["C18."], ["all"], lambda s: s["stim"]["msg"]["kind"] == "New" and s["t"]["hasPre"], quick_n=5000, invariants=["M_C18_Dup"])
+    ctx.rule = ("Ids.tla: N concurrent callers of the atomic next() and two manager lifetimes, all interleavings: Unique/IncreasingPerCaller/AboveSeed/LaterLifeAbove (the read-then-write variant is "
+                "refuted by TLC as a non-vacuity control); concurrent Open calls (8-16 goroutines) on a REAL manager over two successive lifetimes on one store form a history judged by IdsJudge "
+                "(unique, per-caller increasing, increasing in real-time order, later lifetime above, one distinct channel per call; race detector in thorough); duplicate incoming New requests at every "
+                "status of the original on a real manager (C18.dupCreate); non-trivial = issued id / duplicate-request step")
+    ctx.assumptions += ["non-decreasing wall clock between manager lifetimes (as in the statement)"]
+    res = ctx.tlc("Ids", "ids.cfg", timeout=600)
+    if res.violated:
+        raise vlib.Inconclusive("Ids model violates %s\n%s" % (res.violated, res.out[-1500:]))
+    vlib.tlc_must_pass(res, "Ids")
+    ctx.add_model(res)
+    neg = ctx.tlc("Ids", "ids-neg.cfg", timeout=600)
+    if neg.violated != "Unique":
+        raise vlib.Inconclusive("non-vacuity control failed: the non-atomic counter variant was not refuted by TLC")
+    ctx.extra["nonatomic_variant_refuted"] = True
+    b = ctx.go_bin("idsx", race=not ctx.quick())
+    out = ctx.path("idsobs.ndjson")
+    env = {"VERIF_OUT": out, "VERIF_G": 8 if ctx.quick() else 16, "VERIF_K": 30 if ctx.quick() else 45, "VERIF_ROUNDS": 2 if ctx.quick() else 6}
+    r = ctx.run_go(b, "TestIds", env=env, timeout=900)
+    if "DATA RACE" in r.stdout:
+        ctx.violation({"rule": "C18.race"}, "data race reported by the race detector during concurrent opens", detail=r.stdout[-4000:])
+    elif r.returncode != 0:
+        raise vlib.Inconclusive("TestIds failed:\n" + r.stdout[-3000:])
+    else:
+        n, verdicts = stages.judge(ctx, out, module="IdsJudge")
+        idx = stages.index_obs(out)
+        for v in verdicts:
+            c = idx[v["case"]]
+            ctx.violation({"rule": v["rule"]}, "%s violated by concurrent opens (case %s)" % (v["rule"], v["case"]),
+                          detail={"calls": sorted([(x["rank"], x["g"], x["k"], x["life"], x["start"], x["end"], x["err"]) for x in c["calls"]])[:200]})
+        for c in idx.values():
+            ctx.traces += 1
+            ctx.evaluations += len(c["calls"])
+            for x in c["calls"]:
+                ctx.distinct.add(("id", c["case"], x["rank"]))
+        for c in list(idx.values())[:1]:
+            ctx.sample({"kind": "ids", "case": c["case"], "first_calls": sorted([(x["rank"], x["g"], x["k"], x["life"]) for x in c["calls"]])[:12]})
+    stages.mgr_family(ctx, ["C18."], ["all"], lambda s: s["stim"]["msg"]["kind"] == "New" and s["t"]["hasPre"], quick_n=3000, invariants=["M_C18_Dup"], sims=False)
